@@ -6,6 +6,7 @@ import Mathlib.LinearAlgebra.Matrix.Notation
 import BronVerif.Model.LinAlg
 import BronVerif.Lemmas.GaussJordanSolve
 import BronVerif.Lemmas.GaussJordanDet
+import BronVerif.Lemmas.GaussJordanInverse
 import BronVerif.Lemmas.FpField
 import Mathlib.Tactic.NormNum.Prime
 /-!
@@ -95,6 +96,25 @@ theorem det_eq (m : Mat F) (hW : ∀ row ∈ m, row.length = m.length) :
     det m = Matrix.det (toMatrix m.length m) :=
   det_eq_matrix_det m hW
 
+/-- **`TryInv` is sound**: a returned matrix `b` is `n × n` and is the two-sided inverse of `m`
+(stated for the corresponding Mathlib matrices). -/
+theorem inverse_sound (m : Mat F) (hW : ∀ row ∈ m, row.length = m.length) (b : Mat F)
+    (h : inverse m = some b) :
+    (b.length = m.length ∧ ∀ row ∈ b, row.length = m.length) ∧
+      toMatrix m.length b * toMatrix m.length m = 1 ∧
+      toMatrix m.length m * toMatrix m.length b = 1 :=
+  inverse_some m hW b h
+
+/-- **`TryInv` is complete**: it reports "singular" exactly when `Matrix.det` vanishes. -/
+theorem inverse_eq_none_iff_det (m : Mat F) (hW : ∀ row ∈ m, row.length = m.length) :
+    inverse m = none ↔ Matrix.det (toMatrix m.length m) = 0 :=
+  inverse_eq_none_iff m hW
+
+/-- the two Go code paths agree: `Determinant ≠ 0` iff `TryInv` succeeds -/
+theorem det_ne_zero_iff_inverse (m : Mat F) (hW : ∀ row ∈ m, row.length = m.length) :
+    det m ≠ 0 ↔ inverse m ≠ none := by
+  rw [det_eq m hW, Ne, Ne, inverse_eq_none_iff_det m hW]
+
 /-! ### non-vacuity: concrete systems over `ZMod 7` -/
 
 local instance : Fact (Nat.Prime 7) := ⟨by norm_num⟩
@@ -115,6 +135,9 @@ example : numCols ([[1, 3], [2, 1]] : Mat (ZMod 7)) = 2 := by decide
 example : det ([[0, 2], [3, 4]] : Mat (ZMod 7)) = 1 := by decide +kernel
 example : det ([[1, 2], [2, 4]] : Mat (ZMod 7)) = 0 := by decide +kernel
 example : toMatrix 2 ([[0, 2], [3, 4]] : Mat (ZMod 7)) = !![0, 2; 3, 4] := by decide +kernel
+example : inverse ([[0, 2], [3, 4]] : Mat (ZMod 7)) = some [[4, 5], [4, 0]] := by decide +kernel
+example : inverse ([[1, 2], [2, 4]] : Mat (ZMod 7)) = none := by decide +kernel
+example : ∀ row ∈ ([[0, 2], [3, 4]] : Mat (ZMod 7)), row.length = 2 := by decide
 
 /-! ### the executable field `Fp p`
 
